@@ -117,7 +117,7 @@ func c15Pair(t *rapid.T, ev *evProp) {
 		violationOrKnown(t, ev, key("complete"), "honest shuffle proof rejected: %v %s\n%s", err, pn, ctx)
 		return
 	}
-	neg := rapid.SampledFrom([]string{"replace-slot", "duplicate-slot", "swap-slots", "homomorphic-sum", "scale-slot", "drop-reencryption", "swapGH", "otherH", "otherG", "proof-bitflip", "proof-truncate", "other-input", "splice-outputs", "splice-bytes", "drop-output-slot", "add-output-slot", "short-ybar"}).Draw(t, "neg")
+	neg := rapid.SampledFrom([]string{"replace-slot", "duplicate-slot", "swap-slots", "homomorphic-sum", "scale-slot", "drop-reencryption", "swapGH", "otherH", "otherG", "proof-bitflip", "proof-truncate", "other-input", "splice-outputs", "splice-bytes", "drop-output-slot", "add-output-slot", "short-ybar", "lambda-patched", "lambda-patched"}).Draw(t, "neg")
 	mxb, myb := append([]kyber.Point(nil), xb...), append([]kyber.Point(nil), yb...)
 	mG, mH, mX, mY, mprf := e.G, e.H, e.X, e.Y, prf
 	applies := true
@@ -154,6 +154,33 @@ func c15Pair(t *rapid.T, ev *evProp) {
 		mprf[pos/8] ^= 1 << uint(pos%8)
 	case "proof-truncate":
 		mprf = prf[:uniformInt(t, 0, len(prf)-1, "len")]
+	case "lambda-patched":
+		// The output enters the verification only through equations (34)/(35), and those contain the
+		// two LAST points of the prover's first message, Lambda1 and Lambda2.  A prover that may fix them
+		// after the challenges can make any output verify; what stops it is that the challenges are a hash
+		// of the complete first message.  Here: an honest proof, one output slot replaced, and
+		// Lambda1/Lambda2 recomputed from the challenges and responses of the honest transcript and
+		// patched into the proof bytes (for k >= 8 they lie beyond the first KiB of that message).
+		lastPairTranscript.rho = nil
+		if err := proof.HashVerify(e.suite, "PairShuffle", refPairVerify(e, xb, yb, "", -1, -1), prf); err != nil || len(lastPairTranscript.rho) != k {
+			applies = false
+			break
+		}
+		mxb[i] = g.Point().Add(xb[i], e.G)
+		if rapid.Bool().Draw(t, "lp.sum") {
+			mxb[i], myb[i] = g.Point().Add(xb[i], xb[j]), g.Point().Add(yb[i], yb[j])
+		}
+		tr := lastPairTranscript
+		l1, l2 := g.Point().Neg(g.Point().Mul(tr.tau, e.G)), g.Point().Neg(g.Point().Mul(tr.tau, e.H))
+		for q := 0; q < k; q++ {
+			l1 = g.Point().Add(l1, g.Point().Sub(g.Point().Mul(tr.sigma[q], mxb[q]), g.Point().Mul(tr.rho[q], e.X[q])))
+			l2 = g.Point().Add(l2, g.Point().Sub(g.Point().Mul(tr.sigma[q], myb[q]), g.Point().Mul(tr.rho[q], e.Y[q])))
+		}
+		pl := g.PointLen()
+		off := (1 + 4*k) * pl
+		mprf = append([]byte(nil), prf...)
+		copy(mprf[off:], mustMarshal(t, l1))
+		copy(mprf[off+pl:], mustMarshal(t, l2))
 	case "drop-output-slot":
 		// an output list with one ciphertext fewer / one more than the input is no permutation of it.
 		// The library's vector-length test is an explicit panic: a panic counts as refusal here, a nil
